@@ -123,6 +123,16 @@ Section Series.
   Lemma op_type_not_hey o : range_ok bs olds o -> (so_type (as_so (op_msg o)) =? HEY) = false.
   Proof. intros H. rewrite as_so_op by assumption. destruct o; reflexivity. Qed.
 
+  (** validateOp accepts every in-bounds op *)
+  Lemma validate_op_ok o : range_ok bs olds o -> validate_op oldC (as_so (op_msg o)) = true.
+  Proof.
+    intros H. rewrite as_so_op by assumption. unfold validate_op. destruct o as [f i s|d]; cbn [so_type so_file]; [|reflexivity].
+    cbn [T_BLOCK_RANGE Z.eqb]. destruct H as (d & Hd & _). apply znth_Some in Hd.
+    unfold olds, contents_of in Hd. rewrite map_length in Hd.
+    unfold oldC. cbn [container_of c_files]. rewrite map_length.
+    apply andb_true_intro. split; [apply Z.leb_le|apply Z.ltb_lt]; lia.
+  Qed.
+
   Lemma until_marker_ops ops rest :
     Forall (range_ok bs olds) ops -> until_marker (map op_msg ops ++ hey_msg :: rest) = Ok rest.
   Proof.
@@ -195,6 +205,7 @@ Section Series.
     - rewrite as_so_hey. cbn [so_type HEY Z.eqb Pos.eqb]. exists (w_st w).
       unfold replay. cbn [flat_map]. rewrite app_nil_r. split; [reflexivity|]. split; [apply Hw|reflexivity].
     - inversion Hall as [|? ? Ho Hall']; subst. rewrite op_type_not_hey by assumption.
+      rewrite validate_op_ok by assumption. cbn [negb].
       unfold replay in Hlen. cbn [flat_map] in Hlen. rewrite app_length in Hlen. fold (replay bs olds ops) in Hlen.
       destruct (apply_op_next w written o Ho Hw) as (w' & E & Hg & Hfr); [lia|].
       rewrite E. cbn [bind].
@@ -267,9 +278,10 @@ Section Main.
     destruct ops as [|o1 orest] eqn:Eops; [contradiction|].
     pose proof (Forall_inv Hall) as Ho1. pose proof (Forall_inv_tail Hall) as Hrest.
     cbn [map app]. unfold process_rsync.
+    assert (Hv : validate_op oldC (as_so (op_msg o1)) = true) by (apply (validate_op_ok bs old Hbs FO o1 Ho1)).
     assert (Hrelay1 : forall w, relay bs oldC olds (op_msg o1 :: map op_msg orest ++ hey_msg :: rest) w =
                                 bind (apply_op bs oldC olds w (as_so (op_msg o1))) (fun w' => relay bs oldC olds (map op_msg orest ++ hey_msg :: rest) w')).
-    { intros w. cbn [relay]. rewrite (op_type_not_hey bs old Hbs FO o1 Ho1). reflexivity. }
+    { intros w. cbn [relay]. rewrite (op_type_not_hey bs old Hbs FO o1 Ho1), Hv. reflexivity. }
     assert (Hnonfull :
       exists s', bind (open_writer newC s idx) (fun w => bind (apply_op bs oldC olds w (as_so (op_msg o1)))
                       (fun w' => relay bs oldC olds (map op_msg orest ++ hey_msg :: rest) w')) = Ok (rest, s') /\
@@ -278,6 +290,7 @@ Section Main.
       cbn [map app] in Hw. destruct (open_writer newC s idx) as [w| |]; cbn [bind] in *; try discriminate.
       rewrite <- Hrelay1. exact Hw. }
     clear Hwriter Hrelay1.
+    rewrite Hv. cbn [negb]. clear Hv.
     destruct (is_full_file_op bs oldC newC idx (as_so (op_msg o1))) as [[|]| |] eqn:Efull; cbn [bind]; [|exact Hnonfull| |].
     - (* a full-file op: Transpose *)
       clear Hnonfull. rewrite (as_so_op bs old Hbs FO o1 Ho1) in *.
